@@ -35,6 +35,15 @@ def bindVec {α : Type} (L : List Name) (kw : List (Name × α)) (dflt : α) : E
 def fromData {α : Type} (L : List Name) (data : List α) : Except BindErr (List α) :=
   if data.length = L.length then .ok data else .error (.badShape L.length data.length)
 
+/-- `from_data` as numpy sees its argument: `shape` is the array's shape tuple, `flat` its contents in row-major order. The
+check is `data.shape != cls.shape` — on the SHAPE, not on the number of values: a vector type has shape `(len L, 1)`. -/
+def fromDataND {α : Type} (L : List Name) (shape : List Nat) (flat : List α) : Except BindErr (List α) :=
+  if shape = [L.length, 1] then .ok flat else .error (.badShape L.length shape.length)
+
+/-- the same for `named_covariance.from_data`: shape `(len L, len L)` -/
+def fromCovND {α : Type} (L : List Name) (shape : List Nat) (flat : List α) : Except BindErr (List α) :=
+  if shape = [L.length, L.length] then .ok flat else .error (.badShape L.length shape.length)
+
 /-- read slot by name -/
 def getByName {α : Type} (L : List Name) (v : List α) (n : Name) : Option α :=
   (L.zip v).lookup n
